@@ -939,6 +939,15 @@ class LoopSpecs:
         return deco
 
 
+def _eval_inv(env):
+    """the sidecar invariant on the current state; an invariant that names a local variable the code no longer has (a harmless
+    rename) or meets a value of another shape cannot be evaluated: the loop is then unsupported, which is `undecided`"""
+    try:
+        return list(env.inv(env))
+    except (KeyError, AttributeError, TypeError, IndexError) as ex:
+        raise Unsupported(f"the sidecar invariant of loop {env.lid} does not fit the code any more ({type(ex).__name__}: {ex})")
+
+
 class VC:
     """run-time half of the rewrites (the object `__vc` in the compiled code)"""
 
@@ -1003,7 +1012,7 @@ class VC:
         # initial check
         self._bind_counters(env, start=True)
         env.loc = dict(loc)
-        for label, f in inv(env):
+        for label, f in _eval_inv(env):
             c.check(f"{fn} loop {ordinal}: invariant holds on entry: {label}", f, "inv-init")
         return env
 
@@ -1076,7 +1085,7 @@ class VC:
         havoc_all(c)
         self._bind_counters(env)
         env.loc = dict(loc)
-        for label, f in env.inv(env):
+        for label, f in _eval_inv(env):
             c.assume(f)
         env.pre_step = snapshot_all(c)
 
@@ -1121,7 +1130,7 @@ class VC:
             env.seen = z3.Store(env.seen, env.key, z3.BoolVal(True))
         env.loc = dict(loc)
         c.canary(f"{fn} loop {ordinal}, after a generic iteration")
-        for label, f in env.inv(env):
+        for label, f in _eval_inv(env):
             c.check(f"{fn} loop {ordinal}: invariant is preserved: {label}", f, "inv-step")
         raise PathEnd()
 
